@@ -22,22 +22,49 @@ def run(ctx):
                 continue
             j2, _ = E.e2_jobs(ctx, s, c, common.e2_depth(g, 10 if quick else 16), witness=(c.name == 'Cem'), g=g, wd=wd)
             jobs += j2
-    # (b) the REJECT walk itself: one yylex step; the first k visits reject
-    hs = [s for s in corpus.specs(tag='hist') if s.name in (('h_words',) if quick else ('h_words', 'h_sc', 'h_nl'))]
+    # (b) the REJECT walk itself: one yylex step.  Interior variant first (the match attempt jams inside
+    # the buffer; the set of rejecting visits is a solver variable), at one shared action site and at
+    # per-rule sites of rules with fixed-length trailing context (the scanner has backed yy_cp over the
+    # trail before the action runs and yyreject() must undo that).
+    def add(s, c, mode, lens, k, interior, wl=None, maxnul=0):
+        js, g = E.e4_jobs(ctx, s, c, mode, lens, maxnul=maxnul, rej_k=k, timeout=(420 if quick else 1800),
+                          mem_mb=(10000 if quick else 24000), interior=interior, witness_len=wl)
+        if not g.ok:
+            common.gen_ok(ctx, g, s, c, 'E4 ' + mode)
+            return False
+        if not common.compile_check(ctx, g, s, c):
+            return False
+        jobs.extend(js)
+        return True
+
+    hs = [s for s in corpus.specs(tag='hist') if s.name in (('h_words', 'h_sc') if quick else ('h_words', 'h_sc', 'h_nl', 'h_min'))]
+    tcs = list(corpus.specs(tag='histtc'))
+    cf_i = [C('Cem'), C('r', api='r')] if quick else [C('Cem'), C('C', ['-C']), C('B', ['-B']), C('r', api='r'), C('c99', api='c99')]
+    for s in hs + tcs:
+        sites = s in tcs
+        for c in cf_i:
+            for mode in (('reject',) if quick else ('reject', 'yyreject')):
+                if c.api == 'c99' and mode == 'reject':
+                    mode = 'yyreject'
+                m = mode + ('_sites' if sites else '')
+                lens = ([2, 3] if quick else [1, 2, 3, 4, 5])
+                if not add(s, c, m, lens, None, True, wl=(2 if (c.name == 'Cem' and s.name in ('h_words', 'h_tc_vh')) else None)):
+                    break
+    # tokens that run into the end of the buffer (end-of-buffer code inside the walk), no NUL in the input
     for s in hs:
         for c in ([C('Cem')] if quick else [C('Cem'), C('B', ['-B']), C('r', api='r')]):
             for mode in (('reject',) if quick else ('reject', 'yyreject')):
-                for k in ((0, 1) if quick else (0, 1, 2, 3)):
-                    lens = [2] if quick else [1, 2, 3]
-                    js, g = E.e4_jobs(ctx, s, c, mode, lens, maxnul=1, rej_k=k, timeout=(420 if quick else 1800),
-                                      mem_mb=(10000 if quick else 24000), witness_len=(2 if (k == 1 and c.name == 'Cem' and mode == 'reject') else None))
-                    if not g.ok:
-                        common.gen_ok(ctx, g, s, c, 'E4 ' + mode)
-                        break
-                    if not common.compile_check(ctx, g, s, c):
-                        break
-                    jobs += js
-    jobs.sort(key=lambda j: (0 if j.meta.get('engine') == 'E2' else 1, j.name))
+                if not add(s, c, mode, [1, 2, 3] if quick else [1, 2, 3, 4], None, False):
+                    break
+    # per-rule sites: every textual REJECT is a further back edge, so k rejecting visits are fixed per query
+    for s in [t for t in tcs if t.name in ('h_tc_vh', 'h_tc_vt')] if quick else tcs:
+        for k in ((1,) if quick else (0, 1, 2)):
+            add(s, C('Cem'), 'reject_sites', [2] if quick else [1, 2, 3], k, False)
+    # the same with a NUL in the input (NUL transition + 'goto yy_match' inside the walk): k rejecting visits per query
+    for s in hs[:1]:
+        for k in ((1,) if quick else (0, 1, 2, 3)):
+            add(s, C('Cem'), 'reject', [2] if quick else [1, 2, 3], k, False, maxnul=1)
+    jobs.sort(key=lambda j: (0 if j.meta.get('engine') == 'E2' else (1 if j.name.endswith('_int') else 2), j.name))
     ctx.run_cbmc(jobs)
     spelling_and_refusals(ctx)
     common.std_assumptions(ctx)
